@@ -20,11 +20,13 @@ func init() {
 			"(R5) lock pairing over the functions of package(s) database, database/record: " + lockRuleText + ". " +
 			"(R6) error discipline over the subscription, hook and controller code of package database: " + repoErrText + ". " +
 			"(R7) a subscription filters with the subscribing interface's own local/internal privileges, in that order (= C03-R5); " +
+			"(R8) the push function handed out by the runtime registry looks up the injected controller at push time under the registry lock (a controller captured at registration time misses a later injection); " +
 			"NOT decided: exactly-once/in-order delivery over write histories, behaviour when the feed buffer is full.",
 		Rules: []ruleFn{c14R1, c14R2, c14R3, c14R4,
 			lockRuleFor("C14-R5", 20, []string{"database", "database/record"}, []string{}, map[string]string{}),
 			repoErrRuleFor("C14-R6", 14, func(c *Ctx, fn *ssa.Function) bool { p := short(fn.Pkg.Pkg.Path()); return p == "database" && (inFile(c, fn, "subscription.go") || inFile(c, fn, "hook.go") || inFile(c, fn, "hookbase.go") || inFile(c, fn, "controller.go")) }, map[string]string{}),
-			borrowRule(c03R5, "C03-R5", "C14-R7", 2, nil)},
+			borrowRule(c03R5, "C03-R5", "C14-R7", 2, nil),
+			c14R8},
 	})
 }
 
@@ -376,5 +378,35 @@ func c14R4(c *Ctx, r *Report) {
 			}
 		})
 		r.Check(ok, rule, t.fn+" / append under write lock", "registered under the write lock", "registration does not append to Controller."+t.field+" under the write lock")
+	}
+}
+
+func c14R8(c *Ctx, r *Report) {
+	const rule = "C14-R8"
+	r.SetFloor(rule, 2)
+	fn := c.Func("runtime.(*Registry).Register")
+	if fn == nil {
+		r.Undecided(rule, "runtime.(*Registry).Register", "anchor function missing")
+		return
+	}
+	n := 0
+	for _, cl := range fn.AnonFuncs {
+		held := LocksHeldAt(cl)
+		for _, ci := range callsIn(cl, "database.Controller.PushUpdate") {
+			n++
+			recv := unwrapConv(ci.Common().Args[0])
+			fresh := false
+			if ld, ok := recv.(*ssa.UnOp); ok {
+				if fr, ok := fieldOfAddr(ld.X); ok && fr.Owner == "runtime.Registry" && fr.Name == "dbController" && ld.Parent() == cl {
+					fresh = true
+				}
+			}
+			r.Check(fresh, rule, fnKey(cl)+" / controller looked up at push time", "PushUpdate is called on r.dbController as read inside the push function",
+				"the push function uses a controller value obtained elsewhere ("+strings.Join(c.Origins(recv), "+")+"): a provider registered before InjectAsDatabase keeps pushing to the old (nil) controller and its updates never reach subscribers", c.Pos(ci.Pos()))
+			r.Check(heldLock(held[ci], "r.l", true), rule, fnKey(cl)+" / registry lock held while pushing", "under r.l", "the controller is read without the registry lock", c.Pos(ci.Pos()))
+		}
+	}
+	if n == 0 {
+		r.Undecided(rule, fnKey(fn), "no PushUpdate call in the returned push function")
 	}
 }
